@@ -485,7 +485,7 @@ example : Frame (⟨1, 0, 0⟩ : Vec Rat) ⟨0, 1, 0⟩ ∧ ((0 - 5 : Rat) * (-5
     norm_num [circPt, comb, arc3Centre, arc3Denom, nsq, dot, sub, add, smul, cross, unitVec]
 
 /-- the three circle points at the angles 0 < ψ < θ < 2π are accepted and the computed centre is the circle's -/
-theorem circle_centre_real {C e1 e2 : Vec ℝ} (hF : Frame e1 e2) {r ψ θ : ℝ} (hr : 0 < r)
+theorem T_C08_arc3_centre_real {C e1 e2 : Vec ℝ} (hF : Frame e1 e2) {r ψ θ : ℝ} (hr : 0 < r)
     (hψ : 0 < ψ) (hψθ : ψ < θ) (hθ : θ < 2 * Real.pi) :
     arc3Denom (circAt C e1 e2 r 0) (circAt C e1 e2 r ψ) (circAt C e1 e2 r θ) ≠ 0 ∧
     arc3Centre (circAt C e1 e2 r 0) (circAt C e1 e2 r ψ) (circAt C e1 e2 r θ) = C := by
@@ -500,16 +500,6 @@ theorem circle_centre_real {C e1 e2 : Vec ℝ} (hF : Frame e1 e2) {r ψ θ : ℝ
     rw [this]
     exact ne_of_gt (mul_pos (mul_pos hr hr) hD)
 
-theorem sin_neg_upper {θ : ℝ} (h1 : Real.pi < θ) (h2 : θ < 2 * Real.pi) : Real.sin θ < 0 := by
-  have := Real.sin_pos_of_pos_of_lt_pi (x := θ - Real.pi) (by linarith) (by linarith)
-  rw [Real.sin_sub_pi] at this
-  linarith
-
-theorem sin_nonpos_upper {θ : ℝ} (h1 : Real.pi ≤ θ) (h2 : θ ≤ 2 * Real.pi) : Real.sin θ ≤ 0 := by
-  have := Real.sin_nonneg_of_nonneg_of_le_pi (x := θ - Real.pi) (by linarith) (by linarith)
-  rw [Real.sin_sub_pi] at this
-  linarith
-
 /-- **Length = radius × included angle, over ℝ, the `arccos` step included.**  Three points of a circle of radius `r > 0`
     (centre `C`, any orthonormal frame `e1, e2` of its plane) at the angles `0 < ψ < θ < 2π` — start, third point, end.
     `arc3LengthR` is the model function `arc3` (same `arc3Centre`, same side test `dot(cross(r1,r2), cross(r1,r3)) < 0`) with
@@ -520,7 +510,7 @@ theorem T_C08_arc3_length_real {C e1 e2 : Vec ℝ} (hF : Frame e1 e2) {r ψ θ :
     (hψ : 0 < ψ) (hψθ : ψ < θ) (hθ : θ < 2 * Real.pi) (hside : θ ≤ Real.pi ∨ ψ < Real.pi) :
     arc3Denom (circAt C e1 e2 r 0) (circAt C e1 e2 r ψ) (circAt C e1 e2 r θ) ≠ 0 ∧
     arc3LengthR (circAt C e1 e2 r 0) (circAt C e1 e2 r ψ) (circAt C e1 e2 r θ) = r * θ := by
-  obtain ⟨hden, hC⟩ := circle_centre_real (C := C) hF hr hψ hψθ hθ
+  obtain ⟨hden, hC⟩ := T_C08_arc3_centre_real (C := C) hF hr hψ hψθ hθ
   refine ⟨hden, ?_⟩
   unfold arc3LengthR
   rw [hC, arc3LengthAt_circle hF hr]
@@ -554,7 +544,7 @@ theorem T_C08_arc3_length_real_beyond {C e1 e2 : Vec ℝ} (hF : Frame e1 e2) {r 
     arc3LengthR (circAt C e1 e2 r 0) (circAt C e1 e2 r ψ) (circAt C e1 e2 r θ) = r * (2 * Real.pi - θ) ∧
     arc3LengthR (circAt C e1 e2 r 0) (circAt C e1 e2 r ψ) (circAt C e1 e2 r θ) ≠ r * θ := by
   have hπ := Real.pi_pos
-  obtain ⟨_, hC⟩ := circle_centre_real (C := C) hF hr (by linarith) hψθ hθ
+  obtain ⟨_, hC⟩ := T_C08_arc3_centre_real (C := C) hF hr (by linarith) hψθ hθ
   have key : arc3LengthR (circAt C e1 e2 r 0) (circAt C e1 e2 r ψ) (circAt C e1 e2 r θ) = r * (2 * Real.pi - θ) := by
     unfold arc3LengthR
     rw [hC, arc3LengthAt_circle hF hr]
